@@ -18,7 +18,11 @@
 
   Includes fixes/C10-log-measurement-deletions.patch (a DeleteMeasurement change
   is written to the log; before the fix `marshalFieldChanges` dropped every change
-  without a Field, i.e. every deletion).
+  without a Field, i.e. every deletion) and
+  fixes/C10-replay-over-newer-snapshot.patch (a type conflict met while replaying
+  the log is resolved in favour of the log entry; before the fix the replay
+  stopped there, the error was only logged and the shard ran with the half
+  replayed field set — DESIGN §6 F16).
 -/
 import Influx.Model.FieldSchema
 
@@ -67,19 +71,21 @@ def cutLog : List ChangeSet → Nat → List ChangeSet
 /-- `fs.Delete(m)` -/
 def dropMeas (s : Schema) (m : String) : Schema := s.filter (fun e => e.1.1 != m)
 
-/-- one change of the log applied to the in-memory set; `none` = type conflict -/
-def applyChange (s : Schema) : Change → Option Schema
-  | .del m => some (dropMeas s m)
-  | .add m f t => (createField s (m, f) t).map (·.1)
+/-- `mf.fields.Store(name, field)`: insert or overwrite -/
+def setField (s : Schema) (k : FKey) (t : FType) : Schema := (k, t) :: s.filter (fun e => e.1 != k)
 
-/-- `ApplyChanges`: changes in order; stops at the first type conflict and
-    returns what was applied so far (`false`) -/
-def replay : Schema → List Change → Schema × Bool
-  | s, [] => (s, true)
-  | s, c :: cs =>
-    match applyChange s c with
-    | some s' => replay s' cs
-    | none => (s, false)
+/-- one change of the log applied to the in-memory set: a deletion removes the
+    measurement, an addition is `CreateFieldIfNotExists` and, on a type conflict,
+    `Store` of the logged type -/
+def applyChange (s : Schema) : Change → Schema
+  | .del m => dropMeas s m
+  | .add m f t =>
+    match createField s (m, f) t with
+    | some r => r.1
+    | none => setField s (m, f) t
+
+/-- `ApplyChanges`: all changes of all records, in order -/
+def replay (s : Schema) (cs : List Change) : Schema := cs.foldl applyChange s
 
 /-! ### shard state with its files -/
 
@@ -94,23 +100,15 @@ structure PState where
   idx : Option Schema := none
   /-- `fields.idxl` (`none` = no file): complete records, oldest first -/
   log : Option (List ChangeSet) := none
-  /-- bytes of a torn record after the complete ones (a crash during an append) -/
-  torn : Nat := 0
-  /-- `changeFileSize` is 0 although the file is not empty (after a failed load):
-      the next append truncates the file first -/
-  stale : Bool := false
-  /-- the last operation appended the last record of `log` -/
-  lastAppended : Bool := false
   deriving Repr
 
 /-- `appendToChangesFile` for one Save -/
 def appendLog (st : PState) (cs : ChangeSet) : PState :=
-  let old := if st.stale then [] else st.log.getD []
-  { st with log := some (old ++ [cs]), torn := 0, stale := false, lastAppended := true }
+  { st with log := some (st.log.getD [] ++ [cs]) }
 
 /-- `WriteToFile`: snapshot of `mem` (file removed when empty), change log removed -/
 def writeToFile (st : PState) : PState :=
-  { st with idx := if st.mem.isEmpty then none else some st.mem, log := none, torn := 0, stale := false }
+  { st with idx := if st.mem.isEmpty then none else some st.mem, log := none }
 
 /-- the field set a rebuild (`LoadMetadataIndex` with an empty set) derives from
     the stored keys; `none` = two stored keys disagree on a field's type -/
@@ -121,26 +119,25 @@ def schemaFromData : Store → Option Schema
     | none => none
     | some s => (createField s (e.1.1, e.1.2.2.1) e.2.1).map (·.1)
 
-/-- `Engine.Open` + `LoadMetadataIndex` as far as the field set is concerned.
-    `none` = the shard does not open. -/
-def openFields (st : PState) : Option PState :=
+/-- `Engine.Open` + `LoadMetadataIndex` as far as the field set is concerned;
+    `n` = number of bytes of `fields.idxl` that are in the file (a crash in the
+    middle of an append leaves a prefix).  `none` = the shard does not open. -/
+def openFields (st : PState) (n : Nat) : Option PState :=
   let s0 := st.idx.getD []
   -- NewMeasurementFieldSet.load
   let st1 : PState :=
     match st.log with
-    | none => { st with mem := s0, torn := 0, stale := false }
+    | none => { st with mem := s0 }
     | some recs =>
-      if recs.isEmpty then { st with mem := s0, log := none, torn := 0, stale := false }   -- RemoveAll(changes file)
-      else
-        match replay s0 recs.flatten with
-        | (s, true) => writeToFile { st with mem := s }
-        | (s, false) => { st with mem := s, stale := true }    -- error logged, files left as they are
+      let recs' := cutLog recs n
+      if recs'.isEmpty then { st with mem := s0, log := none }      -- RemoveAll(changes file)
+      else writeToFile { st with mem := replay s0 recs'.flatten }
   -- LoadMetadataIndex
   if st1.mem.isEmpty then
     match schemaFromData st1.data with
-    | some s => some { writeToFile { st1 with mem := s } with lastAppended := false }
+    | some s => some (writeToFile { st1 with mem := s })
     | none => none
-  else some { st1 with lastAppended := false }
+  else some st1
 
 /-- clean `Shard.Close`: `MeasurementFieldSet.Close` snapshots iff the change log exists -/
 def closeFields (st : PState) : PState :=
@@ -163,16 +160,32 @@ def crashInClose (st : PState) (p : CrashPoint) : Option PState :=
     | .renamed => if st.mem.isEmpty then none else some { st with idx := some st.mem }   -- new idx, full log
     | .idxRemoved => if st.mem.isEmpty then some { st with idx := none } else none
 
+/-- the measurements whose series `validateSeriesAndFields` creates in the index -/
+def touchSeries (series : List String) (batch : List Point) : List String :=
+  let touched := (batch.filter (fun p => !hasTimeTag p)).map (·.meas)
+  series ++ (touched.filter (fun m => !series.contains m)).eraseDups
+
+/-- the record `saveFieldsAndMeasurements` appends for the created fields -/
+def createdRecord (created : List (FKey × FType)) : ChangeSet :=
+  created.map fun c => .add c.1.1 c.1.2 c.2
+
 /-- `Shard.WritePoints` with persistence of the created fields -/
 def pWrite (st : PState) (batch : List Point) : PState × WriteRes :=
   let v := validateTwoPhase st.mem batch
-  let touched := (batch.filter (fun p => !hasTimeTag p)).map (·.meas)
-  let series' := st.series ++ touched.filter (fun m => !st.series.contains m)
-  let st1 : PState := { st with mem := v.sch, lastAppended := false, series := series' }
+  let st1 : PState := { st with mem := v.sch, series := touchSeries st.series batch }
   -- saveFieldsAndMeasurements
-  let st2 := if v.created.isEmpty then st1 else appendLog st1 (v.created.map fun c => .add c.1.1 c.1.2 c.2)
-  let res := (writePoints { sch := st.mem, data := st.data } batch)
+  let st2 := if v.created.isEmpty then st1 else appendLog st1 (createdRecord v.created)
+  let res := writePoints { sch := st.mem, data := st.data } batch
   ({ st2 with data := res.1.data }, res.2)
+
+/-- the files when `Shard.WritePoints` crashes inside the append of its record
+    (the series exist in the index, the engine write has not happened); `none` =
+    this write appends nothing -/
+def pWriteCrash (st : PState) (batch : List Point) : Option (PState × ChangeSet) :=
+  let v := validateTwoPhase st.mem batch
+  if v.created.isEmpty then none
+  else some (appendLog { st with series := touchSeries st.series batch } (createdRecord v.created),
+             createdRecord v.created)
 
 /-- `Shard.DeleteMeasurement`: all data and series of `m` go; when the measurement
     existed in the index its field set is removed and the deletion is logged -/
@@ -180,7 +193,7 @@ def pDrop (st : PState) (m : String) : PState :=
   if st.series.contains m then
     let data' := st.data.filter (fun e => e.1.1 != m)
     appendLog { st with mem := dropMeas st.mem m, data := data', series := st.series.filter (· != m) } [.del m]
-  else { st with lastAppended := false }
+  else st
 
 /-- what a cursor read returns: the stored values of fields the schema knows, in
     the schema's type; `none` = some stored value has another type than the
@@ -201,51 +214,48 @@ inductive Op10
   | drop (m : String)
   | reopen
   | crash
-  /-- crash during the last append: `j` bytes of the record reached the file -/
-  | crashTorn (j : Nat)
-  /-- the same, counted from the end: all but the last `k` bytes -/
-  | crashTornEnd (k : Nat)
+  /-- the write crashes in the middle of the append of its record to fields.idxl:
+      `j ≥ 0`: the first `j` bytes reached the file; `j < 0`: all but the last `-j` bytes -/
+  | writeTorn (j : Int) (batch : List Point)
+  | dropTorn (j : Int) (m : String)
   | crashInClose (p : CrashPoint)
   | look
   deriving Repr
 
 def seen (st : PState) : Seen := { sch := st.mem, store := visible st.mem st.data }
 
-/-- the files after a crash in the middle of the last append -/
-def tearLast (st : PState) (j : Nat) : PState :=
-  if st.lastAppended then
-    match st.log with
-    | some recs =>
-      match recs.getLast? with
-      | some last => if j < recordLen last then { st with log := some recs.dropLast, torn := j } else st
-      | none => st
-    | none => st
-  else st
-
 /-- open after a restart; a shard that does not open is observed as empty -/
-def reopened (kind : Restart) (st : PState) : PState × Step10 :=
-  match openFields st with
-  | some st' => (st', .restart kind true (seen st'))
-  | none => (st, .restart kind false { sch := [], store := none })
+def reopened (mk : Bool → Seen → Step10) (st : PState) (n : Nat) : PState × Step10 :=
+  match openFields st n with
+  | some st' => (st', mk true (seen st'))
+  | none => (st, mk false { sch := [], store := none })
+
+/-- bytes of the log in the file when the append of `last` is cut at `j` -/
+def tornBytes (recs : List ChangeSet) (last : ChangeSet) (j : Int) : Nat :=
+  logLen recs + (if j < 0 then recordLen last - j.natAbs else min j.toNat (recordLen last))
+
+def fullLog (st : PState) : Nat := logLen (st.log.getD [])
 
 def step10 (st : PState) : Op10 → PState × Step10
   | .write b =>
     let r := pWrite st b
     (r.1, .write b r.2 (seen r.1))
   | .drop m => let st' := pDrop st m; (st', .drop m true (seen st'))
-  | .reopen => reopened .clean (closeFields st)
-  | .crash => reopened .kill st
-  | .crashTorn j => reopened (if (tearLast st j).torn = st.torn ∧ (tearLast st j).log = st.log then .kill else .torn) (tearLast st j)
-  | .crashTornEnd k =>
-    let j := match st.log.bind List.getLast? with
-      | some last => recordLen last - k
-      | none => 0
-    reopened (if (tearLast st j).torn = st.torn ∧ (tearLast st j).log = st.log then .kill else .torn) (tearLast st j)
+  | .reopen => reopened (.restart .clean) (closeFields st) (fullLog (closeFields st))
+  | .crash => reopened (.restart .kill) st (fullLog st)
+  | .writeTorn j b =>
+    match pWriteCrash st b with
+    | none => let r := pWrite st b; (r.1, .write b r.2 (seen r.1))
+    | some (st', last) => reopened (.tornWrite b) st' (tornBytes (st.log.getD []) last j)
+  | .dropTorn j m =>
+    if st.series.contains m then
+      reopened (.tornDrop m) (pDrop st m) (tornBytes (st.log.getD []) [.del m] j)
+    else (st, .drop m true (seen st))
   | .crashInClose p =>
     match crashInClose st p with
-    | some st' => reopened (.inSnapshot p.name) st'
-    | none => reopened .clean (closeFields st)
-  | .look => ({ st with lastAppended := st.lastAppended }, .look (seen st))
+    | some st' => reopened (.restart (.inSnapshot p.name)) st' (fullLog st')
+    | none => reopened (.restart .clean) (closeFields st) (fullLog (closeFields st))
+  | .look => (st, .look (seen st))
 
 def trace10 : PState → List Op10 → List Step10
   | _, [] => []
